@@ -35,6 +35,7 @@ func c16(c *Ctx) {
 	c16Wakeup(c)
 	c16EOFAfterDrain(c)
 	c16CloseOnce(c)
+	c16SingleFrameWriter(c)
 }
 
 func c16TypeTables(c *Ctx) {
